@@ -526,6 +526,32 @@ def load_bounded(run):
         'an int; element-wise; constructor parameters recursively)'))
 
 
+def nodecross_bounded(run):
+    try:
+        rc, out, err = run_native([os.path.join(
+            VERIF, 'checks', 'nodecross_native.py')], run.repo, timeout=900)
+        r = json.loads(out)
+    except Exception as ex:      # noqa
+        run.broken.append('node contract cross-check failed to run: %r' % (
+            ex,))
+        return
+    run.bounded.append(Bounded(
+        'node-contract-cross-check', 'the sidecar contracts of %d Node / '
+        'UnknownNode methods (%s) evaluated natively around the real methods '
+        'on every small node of pyvc.native.small_nodes (one attribute '
+        'holding a scalar / a sequence / a mapping of up to 2 small items '
+        'over the keys id, val, x; empty mapping; duplicated key) x all '
+        'arguments over {items,id,val,x} / {None,val} / {True,False}; not '
+        'covered (type or arbitrary-value arguments): %s' % (
+            len(r.get('covered', [])), ', '.join(r.get('covered', [])),
+            ', '.join(r.get('skipped', []))), r['evaluations'],
+        r['failures'],
+        'CPython cross-check of the contracts and of the prover\'s model of '
+        'Python: every requires/ensures/raises/frame clause the prover '
+        'discharges symbolically also holds when evaluated natively around '
+        'the real method'))
+
+
 def json_bounded(run):
     try:
         rc, out, err = run_native([os.path.join(
